@@ -170,7 +170,7 @@ pub fn tracker_one_request() {
 }
 
 queue_harness! {
-// @check C04 thorough timeout=7200 mem=40
+// @disabled-check (CBMC exhausts 20 GB within 3 minutes: not registered, see DESIGN.md C04) C04 thorough timeout=7200 mem=40
 // @encodes sink::background::WakerTracker::{handle_waiting_wakers, will_progress_on_drained_queue}, tokio oneshot
 // @bounds capacity 2; 4 writer iterations; two flush requests (before iterations 1 and 2)
 // @oracle same as tracker_one_request, for both requests (a request arriving while another is pending is only collected after the first batch completed, and still satisfies S1)
